@@ -5,7 +5,7 @@ for l in open('/verif/properties.jsonl'):
     p = json.loads(l)
     if p['id'] == pid:
         break
-print(f"""You are testing how good a verification suite is, by writing a realistic subtle bug. You are given ONE semantic property of an embedded Rust graph database (nervusdb) and a scratch git worktree of its source at /tmp/seed/{pid} (work only there; do not look at or touch /verif or /repo or other directories under /tmp; no network; cargo works offline: always pass `--offline`, and ALWAYS run cargo with the environment variable CARGO_TARGET_DIR=/tmp/seed/target (a build directory shared with other workers to save disk; never delete it, never create a target/ directory inside your worktree); the machine is shared and loaded, so build and test only the crates you need: `cargo test -p <crate> --offline`, never the whole workspace unless needed).
+print(f"""You are testing how good a verification suite is, by writing a realistic subtle bug. You are given ONE semantic property of an embedded Rust graph database (nervusdb) and a scratch git worktree of its source at /tmp/seed/{pid} (work only there; do not look at or touch /verif or /repo or other directories under /tmp; no network; cargo works offline: always pass `--offline`, and ALWAYS run cargo with the environment variable CARGO_TARGET_DIR=/tmp/seed/target_{pid} (your private build directory; never use another one, never create a target/ directory inside your worktree; do not use `git stash` — stashes are shared between worktrees: use `git diff > file; git checkout -- .; git apply file`); the machine is shared and loaded, so build and test only the crates you need: `cargo test -p <crate> --offline`, never the whole workspace unless needed).
 
 PROPERTY ({pid} — {p['title']}):
 "{p['statement']}"
@@ -18,4 +18,4 @@ DELIVER in /tmp/seed/{pid}/_seed/ :
   patch.diff — `git diff` of your change against HEAD (source files only, no tests)
   demo — a small Rust integration test file (say in meta.json where to drop it, e.g. nervusdb/tests/seed_{pid.lower()}.rs) or small program that FAILS with the change and PASSES without it, demonstrating the property violation concretely
   meta.json — {{"property":"{pid}","what":"<one paragraph>","needs":"<what it needs in order to manifest>","demo_path":"<where the demo goes and how to run it>","ran":["<commands you ran and their outcome>"]}}
-Verify yourself: with the patch applied the demo fails and the existing tests you ran pass; with the patch reverted the demo passes. At the end leave the worktree with the patch NOT applied (`git checkout -- .`; only the untracked _seed/ directory remains) and do not delete the shared target directory. Report briefly what you did.""")
+Verify yourself: with the patch applied the demo fails and the existing tests you ran pass; with the patch reverted the demo passes. At the end leave the worktree with the patch NOT applied (`git checkout -- .`; only the untracked _seed/ directory remains) and delete your build directory (`rm -rf /tmp/seed/target_{pid}`). Report briefly what you did.""")
